@@ -91,6 +91,7 @@ def body(case, rec):
         fai = FastaIndex(path, buf)
         fai.index = idx
         try:
+            todo = []
             for r in recs:
                 info = idx[r["name"]]
                 n = len(r["seq"])
@@ -101,11 +102,17 @@ def body(case, rec):
                         f"{r['name']}: residues/bytes per line ({info.residues_per_line},{info.max_line_length}) != reference ({r['width']},{r['linebytes']})")
                 if n == 0:
                     continue
-                for a, b in probes(n, r["width"] or 1, case["pairs"]):
-                    got = must(fai.sequence_bytes, info, a, b, what=f"sequence_bytes({r['name']},{a},{b})").getvalue()
-                    rec.count("intervals")
-                    if got != r["seq"][a - 1 : b]:
-                        raise Violation(f"{r['name']}:{a}-{b}: random access returned {got[:60]!r}, file has {r['seq'][a - 1 : b][:60]!r}")
+                todo.extend((r, info, a, b) for a, b in probes(n, r["width"] or 1, case["pairs"]))
+            # one index object serves all probes, in an order drawn with the case (records interleaved,
+            # intervals neither sorted nor nested), so that state kept between reads matters
+            keys = case["pairs"]
+            order = sorted(range(len(todo)), key=lambda k: (keys[k % len(keys)][0] * 31 + k * keys[(k // len(keys)) % len(keys)][1]) % 1000003)
+            for k in order:
+                r, info, a, b = todo[k]
+                got = must(fai.sequence_bytes, info, a, b, what=f"sequence_bytes({r['name']},{a},{b})").getvalue()
+                rec.count("intervals")
+                if got != r["seq"][a - 1 : b]:
+                    raise Violation(f"{r['name']}:{a}-{b}: random access returned {got[:60]!r}, file has {r['seq'][a - 1 : b][:60]!r}")
             # derived assembly
             got_asm = conv.plain_assembly(asm)
             want_asm = []
